@@ -16,20 +16,42 @@
 (***************************************************************************)
 EXTENDS Integers, Sequences, FiniteSets, SequencesExt
 
-CONSTANTS Keys,      \* key alphabet
-          Vals,      \* value alphabet
-          Caps       \* capacities explored (subset of Nat)
+\* (the @type comments are for Apalache, see IndLRU.tla; TLC ignores them)
+CONSTANTS
+  \* @type: Set(Str);
+  Keys,      \* key alphabet
+  \* @type: Set(Str);
+  Vals,      \* value alphabet
+  \* @type: Set(Int);
+  Caps       \* capacities explored (subset of Nat)
 
 None == "none"
 
-VARIABLES cap, order, val, idx, dels, ret, cb
+VARIABLES
+  \* @type: Int;
+  cap,
+  \* @type: Seq(Str);
+  order,
+  \* @type: Str -> Str;
+  val,
+  \* @type: Set(Str);
+  idx,
+  \* @type: Int;
+  dels,
+  \* @type: { op: Str, k: Str, v: Str, ok: Bool, res: Str, n: Int };
+  ret,
+  \* @type: Seq(<<Str, Str>>);
+  cb
 vars == <<cap, order, val, idx, dels, ret, cb>>
 view == <<cap, order, val, idx, dels>>          \* ret/cb are outputs, not state
 
 Live == Range(order)
+\* @type: (Seq(Str), Str) => Seq(Str);
 Without(s, k) == SelectSeq(s, LAMBDA x : x # k)
+\* @type: (Seq(Str), Str) => Seq(Str);
 ToFront(s, k) == <<k>> \o Without(s, k)
 NoRet == [op |-> "init", k |-> None, v |-> None, ok |-> FALSE, res |-> None, n |-> 0]
+\* @type: (Seq(Str), Str -> Str) => (Int -> <<Str, Str>>);
 DumpOf(o, vl) == [i \in 1..Len(o) |-> <<o[i], vl[o[i]]>>]
 
 Init == /\ cap \in Caps
